@@ -5,7 +5,8 @@ scripted stubs (harness/drv_fd.c); every case is one document or tree x one tran
 schedule.  The direct oracle below is written from the property text only: it walks the
 schedule to know whether an injected error is reached, and compares what the descriptor
 received with a plain json_object_to_json_string_ext printed in the same line, and what a
-descriptor read returned with json_tokener_parse_ex of the same bytes from memory (one call,
+descriptor read returned with the two-step json_tokener_parse_ex of the same bytes from memory (the bytes, then
+the terminating NUL when the tokener answered continue without a value;
 tokener of the configured depth) printed in the same line.  Call counts, the bytes and
 the depth handed to the parser are compared with the extracted Coq model (FdModel.v)."""
 import os, sys, shutil, tempfile
@@ -188,7 +189,7 @@ def deep(k, obj=False, tail=b"\n"):
 def gen_docs(rng, tier):
     n_valid, n_mut = (150, 70) if tier == "quick" else (3000, 1500)
     docs = []   # (bytes, depth_token, kind)
-    fixed = [b"", b" ", b"null", b"null\n", b"123", b"123 ", b'"abc"', b"[1,2,3]", b"[1,2,3", b'{"a":[1,{"b":null}]}\n', b"[1]\x00[2]",
+    fixed = [b"", b" ", b"null", b"null\n", b"123", b"123 ", b"42", b"true", b"-1.5e3", b"nul", b"1e", b'"abc', b"NaN", b"-Infinity", b"[1,2", b'"abc"', b"[1,2,3]", b"[1,2,3", b'{"a":[1,{"b":null}]}\n', b"[1]\x00[2]",
              b"\x00", b"[1] trailing", b"tru", b"true ", b"[1,,2]", b'{"a" 1}', b"/* c */ [1] // x\n", b"\xef\xbb\xbf[1]", b"[\"\\ud800\"]"]
     for t in fixed:
         for d in ("-1", "fd", "3"):
@@ -481,6 +482,16 @@ def o_write(tree, sched, o, file, open_ok):
     return None
 
 
+def calls_clause(pcalls, referr, where=""):
+    """the number of tokener calls is the tokener's to decide (the model leaves it open): it must be
+    that of the two-step in-memory reference, and a second call must be the NUL behind the data"""
+    if pcalls.endswith("!"):
+        return ("second-parse-call-not-nul", where + "a second json_tokener_parse_ex call was made that is not 'same tokener, the one NUL byte behind the data'")
+    if "c" in referr and pcalls != referr.split("c")[1]:
+        return ("parser-calls-differ", where + "%s json_tokener_parse_ex call(s) were made, the two-step parse from memory makes %s" % (pcalls, referr.split("c")[1]))
+    return None
+
+
 def o_read(doc, depth_s, sched, o, file, open_ok):
     want = 12 if file else 10
     if len(o) != want or o[0] != ("FR" if file else "R"):
@@ -506,7 +517,7 @@ def o_read(doc, depth_s, sched, o, file, open_ok):
         if kind == "err":
             # the only alternative to reporting the failure is to have resumed an interrupted read
             # and delivered the result of the complete data
-            resumed = w[2] == "E:EINTR" and unhx(o[6]) == doc and o[4] == "1" and result == ref
+            resumed = w[2] == "E:EINTR" and unhx(o[6]) == doc and o[4] in ("1", "2") and result == ref
             if result != "NULL" and not resumed:
                 return ("read-error-unreported", "read() failed (%s) after %d of %d bytes but a tree was returned without any failure report: %s"
                         % (w[2], pos, len(doc), result[:60]))
@@ -514,6 +525,9 @@ def o_read(doc, depth_s, sched, o, file, open_ok):
             if result != ref:
                 return ("read-differs-from-memory", "descriptor read gives %s, parsing the same %d bytes from memory (depth %d) gives %s"
                         % (result[:80], len(doc), eff, ref[:80]))
+            v = calls_clause(o[4], o[8])
+            if v:
+                return v
     if file and closes != 1:
         return ("fd-leak", "file opened, close() called %d times" % closes)
     return None
@@ -586,13 +600,17 @@ def o_history(t, impl):
             else:
                 w = walk_read(len(before), sched_parse(f[2]))
                 if w[0] == "err":
-                    resumed = w[2] == "E:EINTR" and unhx(o[6]) == before and o[4] == "1" and result == ref
+                    resumed = w[2] == "E:EINTR" and unhx(o[6]) == before and o[4] in ("1", "2") and result == ref
                     if result != "NULL" and not resumed:
                         return ("read-error-unreported", "step %d: read() failed (%s) after %d of %d bytes but a tree was returned: %s"
                                 % (k, w[2], w[1], len(before), result[:60]))
                 elif w[0] == "done" and result != ref:
                     return ("read-differs-from-memory", "step %d: reading the file gives %s, parsing its %d bytes from memory gives %s"
                             % (k, result[:80], len(before), ref[:80]))
+                elif w[0] == "done":
+                    v = calls_clause(o[4], o[8], "step %d: " % k)
+                    if v:
+                        return v
                 if closes != 1:
                     return ("fd-leak", "step %d: file opened, close() called %d times" % (k, closes))
     e = obs[-1].split(" ")
@@ -690,7 +708,7 @@ def nontrivial(line, meta, impl):
         if o[0] == "N" and o[2] == "1":
             return line
         if o[0] in ("R", "FR"):
-            if int(o[3]) >= 3 or (o[1] == "NULL" and o[4] == "0" and int(o[3]) >= 1):
+            if int(o[3]) >= 3 or o[4] == "2" or (o[1] == "NULL" and o[4] == "0" and int(o[3]) >= 1):
                 return line
     except (ValueError, IndexError):
         pass
@@ -739,7 +757,7 @@ LEVEL_TEXT = ("Machine-checked (Coq, induction on transfer schedules, no axioms,
               "write sizes >= 1 the write loop of json_object_to_fd returns 0 with exactly the string delivered once and in order; an error at "
               "call k gives -1, a message and exactly the bytes of the first k-1 transfers (a strict prefix); for every schedule whatsoever 0 is "
               "returned only with the exact string delivered; a 0-byte write spins (stated). For every data, parser and schedule of read sizes "
-              ">= 1 json_object_from_fd_ex hands the parser exactly the data, in one call, with the configured depth (32 for -1) and returns that "
+              ">= 1 json_object_from_fd_ex hands the tokener exactly the data with the configured depth (32 for -1) — parse2: one call, plus one on the terminating NUL when the first answers continue without a value — and returns that "
               "call's result; any two error-free schedules agree; a read error, an unopenable file, an uncreatable tokener and a NULL parse give NULL "
               "with a message; no path leaves the buffer or the tokener allocated; files are closed exactly once. On a file system path -> contents with "
               "open() flags as data (O_WRONLY|O_TRUNC|O_CREAT, O_RDONLY): for every initial file system a successful json_object_to_file_ext leaves exactly "
